@@ -20,6 +20,9 @@ func main() {
 		n, _ := strconv.Atoi(os.Args[3])
 		os.Exit(c08Worker(os.Args[2], n))
 	}
+	if prop == "c10worker" {
+		os.Exit(c10Worker())
+	}
 	if prop == "c11worker" && len(os.Args) > 2 {
 		n, _ := strconv.Atoi(os.Args[2])
 		os.Exit(c11Worker(n))
